@@ -364,11 +364,6 @@ fn check_term_raw(env: &mut PEnv, t: &T, pstr: bool) -> Result<(), Verdict> {
     Ok(())
 }
 
-thread_local! {
-    /// known open findings met (per signature); merged into the shard's excluded_known
-    static TOLERATED: std::cell::RefCell<std::collections::BTreeMap<String, u64>> = const { std::cell::RefCell::new(std::collections::BTreeMap::new()) };
-}
-
 pub fn check(env: &mut PEnv, c: &Case) -> Verdict {
     if !c.ops.is_empty() {
         if let Err(e) = env.install_ops(&c.ops) {
@@ -392,7 +387,7 @@ pub fn check(env: &mut PEnv, c: &Case) -> Verdict {
             // a known open finding does not end the case: count it and go on with the next term
             if let Verdict::Fail { signature, .. } = &v {
                 if is_known_open(signature) {
-                    TOLERATED.with(|m| *m.borrow_mut().entry(signature.clone()).or_default() += 1);
+                    note_tolerated(signature);
                     tolerated = true;
                     continue;
                 }
@@ -401,7 +396,7 @@ pub fn check(env: &mut PEnv, c: &Case) -> Verdict {
             if let (Ok(path), Verdict::Fail { signature, detail }) = (std::env::var("VERIF_C15_SURVEY"), &v) {
                 use std::io::Write;
                 if let Ok(mut fh) = std::fs::OpenOptions::new().create(true).append(true).open(path) {
-                    let _ = writeln!(fh, "{signature}\t{detail}");
+                    let _ = fh.write_all(format!("{signature}\t{detail}\n").as_bytes());
                 }
                 if signature.starts_with("panic") {
                     return v;
@@ -488,9 +483,7 @@ impl Prop for C15 {
         let nt = cfg.share(cfg.tier.pick(200, 10_000));
         d.run("table", 1, nt, 1, table_case(cfg.tier.pick(100, 100)), &mk_penv, &check);
         d.res.extra.insert("tables".into(), json!(nt));
-        for (k, v) in TOLERATED.with(|m| std::mem::take(&mut *m.borrow_mut())) {
-            *d.res.excluded_known.entry(k).or_default() += v;
-        }
+        drain_tolerated(&mut d.res);
         d.finish()
     }
     fn replay(&self, _kind: &str, case: &Value) -> Verdict {
